@@ -135,7 +135,7 @@ def check(ctx):
                          replay={"cell": sc2["name"], "lattice": np.asarray(sc2["lattice"]).tolist(), "positions": np.asarray(sc2["positions"]).tolist(), "i": int(i), "j": int(j)}, has_input=True)
 
     # ---- API level: zeros outside, monotone, large cutoff = none, dictionaries
-    api_cells = [("tri1", (2, 1, 1)), ("tri2_P1", (2, 1, 1)), ("hcp", (1, 1, 1)), ("tri1", (3, 1, 1))]
+    api_cells = [("tri1", (2, 1, 1)), ("tri2_P1", (2, 1, 1)), ("hcp", (1, 1, 1)), ("tri1", (3, 1, 1)), ("tri2_obtuse", (2, 1, 1))]
     if not ctx.quick:
         api_cells += [("mono_P", (2, 1, 1)), ("tri1", (2, 2, 1)), ("sheared", (2, 1, 1)), ("needle", (1, 1, 2)), ("ortho_C", (1, 1, 2)), ("flat", (1, 1, 1))]
     for cname, diag in api_cells:
@@ -146,7 +146,13 @@ def check(ctx):
         shells = sorted(set(np.round(dist[dist > 1e-8], 6).tolist()))
         bounds = [(a + b) / 2 for a, b in zip(shells[:-1], shells[1:])] + [shells[-1] + 0.37]
         if ctx.quick and len(bounds) > 4:
-            bounds = bounds[:2] + [bounds[len(bounds) // 2]] + bounds[-1:]
+            bounds = bounds[:2] + [bounds[len(bounds) // 2]] + bounds[-3:]     # the last gaps below the largest distance and one beyond it
+        # close to the shells too (a radius just below / just above a shell is as valid as the mid-point): the two widest gaps
+        gaps = sorted(zip(shells[:-1], shells[1:]), key=lambda g: g[0] - g[1])[:2]
+        for a_, b_ in gaps:
+            if b_ - a_ > 1e-2:
+                bounds += [b_ - 1e-3, a_ + 1e-3]
+        bounds = sorted(set(bounds))
         for order in (2, 3, 4):
             if N ** order * 3 ** order > 300000:
                 continue
